@@ -23,6 +23,7 @@
 #define _GNU_SOURCE
 #include <dlfcn.h>
 #include <pthread.h>
+#include <sched.h>
 #include <stdint.h>
 #include <stdio.h>
 #include <stdlib.h>
@@ -90,7 +91,7 @@ static void resolve_lib(void) {
     lib_handle = h;
 }
 
-static void loglock(void) { while (__atomic_exchange_n(&g_loglock, 1, __ATOMIC_ACQUIRE)) { } }
+static void loglock(void) { int n = 0; while (__atomic_exchange_n(&g_loglock, 1, __ATOMIC_ACQUIRE)) { if (++n > 100) { sched_yield(); n = 0; } } }
 static void logunlock(void) { __atomic_store_n(&g_loglock, 0, __ATOMIC_RELEASE); }
 
 static char* cur_sd(void) { return g_sdp ? *g_sdp : NULL; }
